@@ -1327,7 +1327,9 @@ class ContractionTree:
                 self.childless.add(y)
 
         # pre-computed information
-        if legs is not None:
+        if legs is not None and len(parent) != self.N:
+            # n.b. the legs of the root are always the output indices, in
+            # the order given by the output -> let ``get_legs`` generate them
             self.info[parent]["legs"] = legs
         if cost is not None:
             self.info[parent]["flops"] = cost
